@@ -91,6 +91,12 @@ def run(tier, seed, replay=None):
             cid += 1
             cases.append({"id": cid, "mode": "dump-main", "n": rnd.choice([100, 8191, 8193, 20000, 70000]), "stream_len": rnd.choice([0, 300]), "pre_newlines": rnd.choice([0, 2]),
                           "mid_newlines": rnd.choice([0, 1]), "status_case": 0, "frags": rnd.choice([[], [1, 1, 1048576], [4096], [8191, 1]]), "pause_us": 50, "offset": 0, "read_max": 4096})
+        # ... with RDBs large enough, and sent in small enough pieces, for the two dumpers to be copying at the same moment many times over
+        # (odd id: two file workers)
+        for j in range(4 if thorough else 1):
+            cid += 1 + (cid % 2)   # -> odd
+            cases.append({"id": cid, "mode": "dump-main", "n": 96 * 1024 * 1024 + j, "stream_len": 0, "pre_newlines": 0, "mid_newlines": 0, "status_case": 0,
+                          "frags": [], "pause_us": 20, "offset": 0, "read_max": 4096})
         trace = sc.path("trace.ndjson")
         rc, out, err = vlib.run_vdrv(["handoff"], stdin=json.dumps({"seed": seed, "cases": cases, "trace": trace, "dir": sc.dir}), timeout=3000)
         crashed = False
